@@ -26,19 +26,36 @@ use std::collections::{BTreeMap, HashSet};
 
 #[derive(Clone, Debug, PartialEq)]
 enum X {
+    /// `tag` / attribute names may carry a namespace prefix (`xsi:schemaLocation`) and attributes
+    /// named `xmlns` / `xmlns:*` are namespace declarations: both are rendered into the XML text,
+    /// but roxmltree reports LOCAL names and does not list namespace declarations as attributes,
+    /// so the tree sent to the model has local names and no `xmlns*` attributes.
     E { tag: String, attrs: Vec<(String, String)>, children: Vec<X> },
     T(String),
     C(String),
+    /// processing instruction `<?target data?>`
+    P(String),
 }
 
 fn xe(tag: &str, attrs: Vec<(String, String)>, children: Vec<X>) -> X {
     X::E { tag: tag.into(), attrs, children }
 }
 
+fn local(name: &str) -> &str {
+    match name.find(':') {
+        Some(i) => &name[i + 1..],
+        None => name,
+    }
+}
+
+fn is_ns_decl(name: &str) -> bool {
+    name == "xmlns" || name.starts_with("xmlns:")
+}
+
 impl X {
     fn tag(&self) -> &str {
         match self {
-            X::E { tag, .. } => tag,
+            X::E { tag, .. } => local(tag),
             _ => "",
         }
     }
@@ -53,31 +70,64 @@ fn hx(s: &str) -> String {
     o
 }
 
-fn esc_text(s: &str) -> String {
-    s.replace('&', "&amp;").replace('<', "&lt;").replace('>', "&gt;")
-}
-
-fn esc_attr(s: &str) -> String {
-    s.replace('&', "&amp;").replace('<', "&lt;").replace('"', "&quot;")
+/// Escapes plus (randomly) numeric character references; `extra` are further characters that
+/// must be escaped (`"` or `'` in attribute values).
+fn esc(s: &str, rng: &mut Rng, attr_quote: Option<char>) -> String {
+    let mut o = String::with_capacity(s.len() + 8);
+    for c in s.chars() {
+        match c {
+            '&' => o.push_str("&amp;"),
+            '<' => o.push_str("&lt;"),
+            '>' if attr_quote.is_none() => o.push_str("&gt;"),
+            '"' if attr_quote == Some('"') => o.push_str("&quot;"),
+            '\'' if attr_quote == Some('\'') => o.push_str("&apos;"),
+            '\n' if attr_quote.is_none() && rng.chance(1, 6) => o.push_str("\r\n"),
+            c if !c.is_whitespace() && rng.chance(1, 40) => {
+                if rng.bool() {
+                    o.push_str(&format!("&#x{:X};", c as u32));
+                } else {
+                    o.push_str(&format!("&#{};", c as u32));
+                }
+            }
+            c => o.push(c),
+        }
+    }
+    o
 }
 
 fn render(x: &X, rng: &mut Rng, out: &mut String) {
     match x {
-        X::T(t) => out.push_str(&esc_text(t)),
+        X::T(t) => {
+            // a whole text node as one CDATA section now and then (roxmltree reports it as text)
+            if !t.contains("]]>") && !t.trim().is_empty() && rng.chance(1, 25) {
+                out.push_str("<![CDATA[");
+                out.push_str(t);
+                out.push_str("]]>");
+            } else {
+                out.push_str(&esc(t, rng, None));
+            }
+        }
         X::C(c) => {
             out.push_str("<!--");
             out.push_str(c);
             out.push_str("-->");
         }
+        X::P(p) => {
+            out.push_str("<?");
+            out.push_str(p);
+            out.push_str("?>");
+        }
         X::E { tag, attrs, children } => {
             out.push('<');
             out.push_str(tag);
             for (k, v) in attrs {
-                out.push(' ');
+                out.push_str(if rng.chance(1, 10) { "\n   " } else { " " });
                 out.push_str(k);
-                out.push_str("=\"");
-                out.push_str(&esc_attr(v));
-                out.push('"');
+                let q = if rng.chance(1, 5) { '\'' } else { '"' };
+                out.push('=');
+                out.push(q);
+                out.push_str(&esc(v, rng, Some(q)));
+                out.push(q);
             }
             if children.is_empty() && rng.bool() {
                 out.push_str("/>");
@@ -118,13 +168,15 @@ fn encode(x: &X, out: &mut String) {
             out.push_str(" C ");
             out.push_str(&hex(c.as_bytes()));
         }
+        X::P(_) => out.push_str(" P"),
         X::E { tag, attrs, children } => {
             out.push_str(" E ");
-            out.push_str(&hex(tag.as_bytes()));
+            out.push_str(&hex(local(tag).as_bytes()));
+            let attrs: Vec<&(String, String)> = attrs.iter().filter(|a| !is_ns_decl(&a.0)).collect();
             out.push_str(&format!(" {}", attrs.len()));
             for (k, v) in attrs {
                 out.push(' ');
-                out.push_str(&hex(k.as_bytes()));
+                out.push_str(&hex(local(k).as_bytes()));
                 out.push(' ');
                 out.push_str(&hex(v.as_bytes()));
             }
@@ -1104,6 +1156,8 @@ fn has_group(items: &[Item]) -> bool {
 // ---------------------------------------------------------------------------------------
 
 /// float literal pool (expected value = Rust's own `str::parse::<f64>` / INF / -INF).
+const GENAPI_NS: &str = "http://www.genicam.org/GenApi/Version_1_1";
+
 const FLOATS: [&str; 16] = [
     "1.5", "-0.25", "3", "1e10", "2.5E-3", "INF", "-INF", "NaN", "0", "0.5", "100", "-7", "1.0", "0.1", "1e-3", "12.75",
 ];
@@ -1448,7 +1502,8 @@ impl<'a> Gen<'a> {
                         out.extend(inner);
                     } else {
                         let inner = self.noise_wrap(inner);
-                        out.push(xe("Group", attrs.clone(), inner));
+                        let tag = if attrs.iter().any(|a| a.0 == "xmlns:g") { "g:Group" } else { "Group" };
+                        out.push(xe(tag, attrs.clone(), inner));
                     }
                 }
             }
@@ -1571,6 +1626,16 @@ impl<'a> Gen<'a> {
             a.push(("ExposeStatic".into(), self.rng.pick(&["Yes", "No"]).to_string()));
         }
         // random attribute order
+        // what every real schema-valid file carries on its root: the default namespace and the
+        // schema-instance attributes (roxmltree: local names, declarations are not attributes)
+        if self.rng.below(100) < 85 {
+            self.rep.count("namespace:root-default+xsi");
+            a.push(("xmlns".into(), GENAPI_NS.into()));
+            a.push(("xmlns:xsi".into(), "http://www.w3.org/2001/XMLSchema-instance".into()));
+            a.push(("xsi:schemaLocation".into(), format!("{GENAPI_NS} GenApiSchema_Version_1_1.xsd")));
+        } else {
+            self.rep.count("namespace:none");
+        }
         for i in (1..a.len()).rev() {
             let j = self.rng.below(i as u64 + 1) as usize;
             a.swap(i, j);
@@ -2272,6 +2337,17 @@ impl<'a> Gen<'a> {
                 if self.rng.bool() {
                     attrs.push(("Comment".to_string(), self.lit_attr_str()));
                 }
+                match self.rng.below(20) {
+                    0 | 1 | 2 => {
+                        self.rep.count("namespace:default-redeclared-on-Group");
+                        attrs.push(("xmlns".to_string(), GENAPI_NS.to_string()));
+                    }
+                    3 => {
+                        self.rep.count("namespace:prefixed-Group");
+                        attrs.push(("xmlns:g".to_string(), GENAPI_NS.to_string()));
+                    }
+                    _ => {}
+                }
                 let n = if self.rng.chance(1, 20) { 0 } else { 1 + self.rng.below(4) as usize };
                 let sub = (0..n).map(|_| self.gen_item(depth + 1)).collect();
                 Item::G(attrs, sub)
@@ -2298,6 +2374,16 @@ impl<'a> Gen<'a> {
                 _ => v.to_string(),
             };
             a.push((k.into(), s));
+        }
+        // what every real schema-valid file carries on its root: the default namespace and the
+        // schema-instance attributes (roxmltree: local names, declarations are not attributes)
+        if self.rng.below(100) < 85 {
+            self.rep.count("namespace:root-default+xsi");
+            a.push(("xmlns".into(), GENAPI_NS.into()));
+            a.push(("xmlns:xsi".into(), "http://www.w3.org/2001/XMLSchema-instance".into()));
+            a.push(("xsi:schemaLocation".into(), format!("{GENAPI_NS} GenApiSchema_Version_1_1.xsd")));
+        } else {
+            self.rep.count("namespace:none");
         }
         for i in (1..a.len()).rev() {
             let j = self.rng.below(i as u64 + 1) as usize;
